@@ -217,6 +217,55 @@ def width_loop_monitor(ctx, exe, sc, pairs, env, thorough):
                % (checked, iters), bad == 0, "monitor", "%d" % bad)
 
 
+def no_final_newline_universe(ctx, exe, sc, pairs, env, thorough):
+    """a text file need not end in a line break: every test pair whose input is accepted must be accepted with its final line break
+    taken away (many passes close a construct at the chunk AFTER it, and the last line of such a file has none).  Fixed universe
+    (all pairs) in the thorough tier, a fixed half of it in the quick tier."""
+    sel = [p for i, p in enumerate(sorted(pairs)) if os.path.getsize(p[2]) < 60000 and (thorough or i % 2 == 0)]
+
+    def one(p):
+        name, cfg, inp, lang = p
+        data = open(inp, "rb").read()
+        if b"\x00" in data or not data.endswith(b"\n"):
+            return None
+        cut = data[:-2] if data.endswith(b"\r\n") else data[:-1]
+        if cut.endswith(b"\\") or not cut.strip():
+            return None            # a line continuation at the end of the file is not a complete file
+        args = ["-l", lang] if lang else []
+        try:
+            r0 = subprocess.run([exe, "-q", "-c", cfg, "-f", inp] + args, stdout=subprocess.DEVNULL, stderr=subprocess.DEVNULL, env=env, timeout=3 * TIMEOUT,
+                                cwd=os.path.dirname(cfg))
+        except subprocess.TimeoutExpired:
+            return None
+        if r0.returncode != 0:
+            return None
+        q = sc.write(cut, os.path.splitext(inp)[1] or ".c")
+        try:
+            r = subprocess.run([exe, "-q", "-c", cfg, "-f", q] + args, stdout=subprocess.DEVNULL, stderr=subprocess.PIPE, env=env, timeout=TIMEOUT,
+                               cwd=os.path.dirname(cfg))
+            return r.returncode, r.stderr[-300:]
+        except subprocess.TimeoutExpired:
+            return "timeout", b""
+    res = common.pmap(one, sel)
+    bad = n = 0
+    for (name, cfg, inp, lang), r in zip(sel, res):
+        if r is None:
+            continue
+        n += 1
+        ctx.case("noeol:" + name)
+        rc, err = r
+        if rc != 0:
+            bad += 1
+            if bad <= 4:
+                ctx.violation("test %s is formatted with exit 0, but without the final line break of the input the run ends with %s: %s"
+                              % (name, rc, err.decode("latin1").strip().split("\n")[-1][:160] if err else ""),
+                              {"input": os.path.relpath(inp, common.REPO), "config": os.path.relpath(cfg, common.REPO), "lang": lang,
+                               "how": "remove the last line break of the input file; uncrustify -q -c config -f file [-l lang]"},
+                              key={"kind": "no-final-newline", "input": os.path.relpath(inp, common.REPO), "config": os.path.relpath(cfg, common.REPO)},
+                              found_input=True)
+    ctx.oblige("fixed universe: every accepted test input is accepted without its final line break (%d pairs)" % n, bad == 0, "oracle", "%d" % bad)
+
+
 def run(ctx):
     ctx.level = "proof"
     ctx.cov["rule"] = ("one case = one run of the real binary on a mutated corpus input (line/byte truncation, deleted/duplicated line, bracket "
@@ -391,6 +440,7 @@ def run(ctx):
                                   key=None, found_input=True)
         ctx.oblige("exploration: several files in one invocation end with a documented status (%d invocations)" % mruns, mbad == 0, "oracle", "%d" % mbad)
         width_loop_monitor(ctx, exe, sc, pairs, env, thorough)
+        no_final_newline_universe(ctx, exe, sc, unc.test_pairs(), env, thorough)
         ctx.oblige("exploration: every run ends with a documented status, no signal/sanitizer report/timeout, nothing on stdout when refused (%d runs)"
                    % len(res), bad == 0, "oracle", "%d failures" % bad)
         ctx.sample({"mutation": res[0][0][3], "rc": res[0][1], "lang": res[0][0][2]})
